@@ -17,8 +17,8 @@ from pykdebugparser.callstacks_parser import CallstacksParser
 from pykdebugparser.pykdebugparser import PyKdebugParser
 
 U = [bytes([i]) * 16 for i in (1, 2)]
-ADDR = [0x1000, 0x2000, 0x2001, 0x3000]
-WORDS = sorted({a + d for a in ADDR for d in (-1, 0, 1)} | {0, 2 ** 64 - 1})
+ADDR = [0, 0x1000, 0x2000, 0x2001, 0x3000]      # an image may be loaded at address 0
+WORDS = sorted({a + d for a in ADDR for d in (-1, 0, 1) if a + d >= 0} | {0, 2 ** 64 - 1})
 
 
 def img_event(a, u, tid=1, kind='DYLD_uuid_map_a'):
@@ -54,6 +54,13 @@ def make_items():
     items.append(('launch', ((0x1000, 0, 'a'), (0x3000, 1, 'a'), (0x2001, 1, 's')), None,
                   [E.ev('DBG_DYLD_TIMING_LAUNCH_EXECUTABLE', 1, (0, 0x4000, 0, 0)), img_event(0x1000, 0), img_event(0x3000, 1),
                    img_event(0x2001, 1, kind='DYLD_uuid_shared_cache_a'), E.ev('DBG_DYLD_TIMING_LAUNCH_EXECUTABLE', 2, (0, 0, 0, 0))]))
+    # two shared-cache records at ONE address with different identities inside one launch window: the first identity is kept
+    items.append(('launch', ((0x2800, 0, 's'), (0x2800, 1, 's2')), None,
+                  [E.ev('DBG_DYLD_TIMING_LAUNCH_EXECUTABLE', 1, (0, 0x4000, 0, 0)), img_event(0x2800, 0, kind='DYLD_uuid_shared_cache_a'),
+                   img_event(0x2800, 1, kind='DYLD_uuid_shared_cache_a'), E.ev('DBG_DYLD_TIMING_LAUNCH_EXECUTABLE', 2, (0, 0, 0, 0))]))
+    # stack headers whose own flag word lacks the valid bit (even values): the frames are still the first N words
+    items.append(('samp-hdr', 4, tuple(WORDS[3:11]), 0x100))
+    items.append(('samp-hdr', 3, tuple(WORDS[3:11]), 0))
     for n in (0, 1, 3, 4, 5, 9):
         for k in (0, 4, 8):
             items.append(('samp', n, tuple(WORDS[:k]) if k != 8 else tuple(WORDS[3:11]), None))
